@@ -114,7 +114,9 @@ prop('C06', title='Receive path: exact stream framing, and no failure on any del
 prop('C07', title='Packet decoders accept exactly the well-formed packets', level='proof', bounded=[('bounded.c07', 'run', SH)],
      level_text='Unbounded proof, per function, that the decoders (var-number codec, outer-element check, Name.decode, UintField widths, '
                 'the generic TlvModel.parse scan for an arbitrary field list) keep every nested element inside its parent, match recognised '
-                'elements once and in order, reject unrecognised critical ones, terminate in linear time and raise only documented errors. '
+                'elements once and in order, reject unrecognised critical ones, examine the WHOLE wire before returning, hand a nested model '
+                'exactly its Value bytes and the criticality rule declared for that field (ModelField.parse_from; no nested element of the '
+                'Interest format is declared relaxed), terminate in linear time and raise only documented errors. '
                 'One open known finding (declared length overrunning the parent is truncated, not rejected) is reported on every run.',
      level_note='Trusted: pyvc itself, z3, the builtin models (struct, bytes, memoryview, len, isinstance), the Field interface used for the '
                 'generic parse proof (each shipped Field class is tied to it by its own contract). "Fields equal a strict reading" is only '
@@ -245,7 +247,11 @@ prop('C18', title='State-vector sync merges monotonically and announces exactly 
                 '(loop step contract, any state and vectors): a reset sends nothing, a steady-state timer sends exactly one sync '
                 'Interest, after suppression one is sent iff some local entry exceeds what the aggregate covers, back to steady, '
                 'vectors untouched; new_data: own sequence number +1 recorded for this node only, timer due at once, task woken iff '
-                'running. Timing (when timers fire) and the content of emitted vectors are a bounded stand-in on a virtual clock.',
+                'running; sync_handler and the suppression period: a steady instance enters suppression iff the sender is behind or names '
+                'unknown nodes, the merge of the period starts as exactly that vector, later vectors are folded in entry-wise, and the '
+                'periodic timer is pushed back only when no sync Interest is due now (a publication waiting for the timer task is not '
+                'postponed: one defect found and fixed there). Timing (when timers fire) and the content of emitted vectors are a bounded '
+                'stand-in on a virtual clock.',
      level_note='Quantified obligations (maps, exists) are discharged by z3 with MBQI; a false one may come back unknown (reported '
                 'as undecided, never as holding). Wall-clock arithmetic is opaque.',
      technique=T_MIXED)
